@@ -114,4 +114,65 @@ theorem C06_extend_literal (o : Opts) (lit : S) (cands : List Cand) (c : Cand)
   · intro d hd; unfold selectExtend; simp [hf, hd]
   · intro e he; unfold selectExtend; simp [hf, he]
 
+open Gv.Signature in
+/-- the extend list keeps everything: whatever a name of an extend line selects is in the converter's list, under its own
+package (a function of another package with the same identifier does not replace it) -/
+theorem C06_extend_list_complete (o : Opts) (es : List ExtEntry) (l : List (S × S)) (h : extendList o es = .ok l)
+    (e : ExtEntry) (he : e ∈ es) (names : List S) (hs : selectExtend e.literal e.lit o e.cands = .ok names)
+    (n : S) (hn : n ∈ names) : (e.pkg, n) ∈ l := by
+  induction es generalizing l with
+  | nil => cases he
+  | cons x rest ih =>
+    unfold extendList at h
+    split at h
+    · cases h
+    · rename_i names' hx
+      split at h
+      · cases h
+      · rename_i more hm
+        cases h
+        rcases List.mem_cons.1 he with rfl | hr
+        · rw [hs] at hx; cases hx
+          exact List.mem_append_left _ (List.mem_map.2 ⟨n, hn, rfl⟩)
+        · exact List.mem_append_right _ (ih more hm hr)
+
+open Gv.Signature in
+/-- and nothing else: every member of the list was selected by one of the names -/
+theorem C06_extend_list_sound (o : Opts) (es : List ExtEntry) (l : List (S × S)) (h : extendList o es = .ok l)
+    (pk n : S) (hm : (pk, n) ∈ l) :
+    ∃ e ∈ es, e.pkg = pk ∧ ∃ names, selectExtend e.literal e.lit o e.cands = .ok names ∧ n ∈ names := by
+  induction es generalizing l with
+  | nil => unfold extendList at h; cases h; cases hm
+  | cons x rest ih =>
+    unfold extendList at h
+    split at h
+    · cases h
+    · rename_i names' hx
+      split at h
+      · cases h
+      · rename_i more hmore
+        cases h
+        rcases List.mem_append.1 hm with h1 | h2
+        · obtain ⟨a, ha, hpa⟩ := List.mem_map.1 h1
+          cases hpa
+          exact ⟨x, List.mem_cons_self, rfl, names', hx, ha⟩
+        · obtain ⟨e, he, hp, names, hs, hn⟩ := ih more hmore h2
+          exact ⟨e, List.mem_cons_of_mem _ he, hp, names, hs, hn⟩
+
+open Gv.Signature in
+/-- a name that selects nothing usable fails the configuration wherever it stands: a valid name after it (on the same line
+or a later one) does not hide it -/
+theorem C06_extend_list_rejects (o : Opts) (es : List ExtEntry) (e : ExtEntry) (he : e ∈ es) (x : SelErr)
+    (hs : selectExtend e.literal e.lit o e.cands = .error x) : ∃ y, extendList o es = .error y := by
+  induction es with
+  | nil => cases he
+  | cons a rest ih =>
+    unfold extendList
+    rcases List.mem_cons.1 he with rfl | hr
+    · rw [hs]; exact ⟨x, rfl⟩
+    · split
+      · rename_i y _; exact ⟨y, rfl⟩
+      · obtain ⟨y, hy⟩ := ih hr
+        rw [hy]; exact ⟨y, rfl⟩
+
 end Gv.Props.C06
